@@ -39,7 +39,8 @@ var formulaFns = []string{
 	"(*field.Element).Invert", "(*field.Element).Pow22523",
 	"(*Point).bytes", "(*Point).Bytes", "(*Point).BytesMontgomery", "(*Point).Set", "NewIdentityPoint", "NewGeneratorPoint",
 	"(*Point).extendedCoordinates",
-	"(*projLookupTable).FromP3", "(*affineLookupTable).FromP3", "(*nafLookupTable5).FromP3", // (*nafLookupTable8).FromP3: 64 unrolled entries, the rfl tie needs minutes
+	"(*projLookupTable).FromP3", "(*affineLookupTable).FromP3", "(*nafLookupTable5).FromP3",
+	// "(*Point).ScalarMult", "(*Point).ScalarBaseMult" translate fine (64 unrolled iterations) but their ties are still being evaluated; (*nafLookupTable8).FromP3: 64 unrolled entries, the rfl tie needs minutes
 }
 
 // unexported helpers that fill a caller-provided buffer: parameter positions that may be written besides the receiver
@@ -78,6 +79,11 @@ var formulaPrims = map[string]prim{
 	"(*field.Element).Bytes":    {"Fe.bytes", []int{0}, -1, "val"},
 	"(*field.Element).IsNegative": {"Fe.isNegative", []int{0}, -1, "val"},
 	"crypto/subtle.ConstantTimeCompare": {"Fe.ctCompare", []int{0, 1}, -1, "val"},
+	// digit recoding and table selection: tied by the executed correspondence (digits and selects are compared
+	// exhaustively per generated point), primitives here
+	"(*Scalar).signedRadix16":          {"Scalar.radix16Digits", []int{0}, -1, "val"},
+	"(*projLookupTable).SelectInto":    {"Point.projSelect", []int{0, 2}, 1, "recv"},
+	"(*affineLookupTable).SelectInto":  {"Point.affineSelect", []int{0, 2}, 1, "recv"},
 }
 
 type fplace struct {
@@ -164,6 +170,11 @@ func namedName(ty types.Type) string {
 	return ""
 }
 
+func isScalar(ty types.Type) bool {
+	n, ok := ty.(*types.Named)
+	return ok && n.Obj().Name() == "Scalar" && n.Obj().Pkg() != nil && strings.HasSuffix(n.Obj().Pkg().Path(), "edwards25519")
+}
+
 func isElement(ty types.Type) bool {
 	n, ok := ty.(*types.Named)
 	return ok && n.Obj().Name() == "Element" && n.Obj().Pkg() != nil && strings.HasSuffix(n.Obj().Pkg().Path(), "/field")
@@ -201,7 +212,7 @@ func realFields(st *types.Struct) []*types.Var {
 
 // components of a composite type (nil for leaves: Element, byte sequences, integers, pointers)
 func (t *ftr) kids(ty types.Type) []fkid {
-	if isElement(ty) || isByteSeq(ty) {
+	if isElement(ty) || isByteSeq(ty) || isScalar(ty) {
 		return nil
 	}
 	switch u := ty.Underlying().(type) {
@@ -244,6 +255,12 @@ func (t *ftr) leafTerms(p fplace, term string, f func(key, term string, ty types
 func (t *ftr) leanTypeOf(ty types.Type) string {
 	if isElement(ty) {
 		return "Fe"
+	}
+	if isScalar(ty) {
+		return "W4"
+	}
+	if b, ok := ty.Underlying().(*types.Basic); ok && b.Kind() == types.Int8 {
+		return "Int"
 	}
 	if s, ok := leanStruct[namedName(ty)]; ok {
 		return s
@@ -292,41 +309,94 @@ func (t *ftr) zeroTerm(ty types.Type) string {
 }
 
 // the value stored at a place, packed as a Lean term of the place's type
-func (t *ftr) pack(p fplace) string {
-	ks := t.kids(p.ty)
-	if ks != nil {
-		var fs []string
-		for _, k := range ks {
-			fs = append(fs, t.pack(fplace{p.key + k.seg, k.ty}))
+// ancestors of a place key, shortest first ("p1", "p1.points", "p1.points[3]" for "p1.points[3].Z")
+func ancestors(key string) []string {
+	var out []string
+	for i := 1; i < len(key); i++ {
+		if key[i] == '.' || key[i] == '[' {
+			out = append(out, key[:i])
 		}
-		if ls, ok := leanStruct[namedName(p.ty)]; ok {
-			return "(⟨" + strings.Join(fs, ", ") + "⟩ : " + ls + ")"
-		}
-		if _, ok := p.ty.Underlying().(*types.Array); ok {
-			return "#[" + strings.Join(fs, ", ") + "]"
-		}
-		return fs[0]
 	}
-	v, ok := t.store[p.key]
-	if !ok {
+	return out
+}
+
+// a composite place may hold one Lean term for the whole value; it is split into its components only when a
+// component is accessed (so that values that are merely passed around stay opaque: `a1`, `Point.basepointTable[3]!`)
+func (t *ftr) ensure(key string) {
+	for _, pre := range ancestors(key) {
+		e, ok := t.store[pre]
+		if !ok || e.kind != "term" || e.ty == nil {
+			continue
+		}
+		ks := t.kids(e.ty)
+		if ks == nil {
+			continue
+		}
+		delete(t.store, pre)
+		for _, k := range ks {
+			t.store[pre+k.seg] = fval{kind: "term", term: e.term + k.proj, ty: k.ty}
+		}
+	}
+}
+
+func (t *ftr) pack(p fplace) string {
+	t.ensure(p.key)
+	if v, ok := t.store[p.key]; ok {
+		if v.kind != "term" {
+			t.fail("place %s does not hold a value", p.key)
+			return "default"
+		}
+		return v.term
+	}
+	ks := t.kids(p.ty)
+	if ks == nil {
 		t.fail("read of unknown place %s", p.key)
 		return "default"
 	}
-	if v.kind != "term" {
-		t.fail("place %s does not hold a value", p.key)
-		return "default"
+	var fs []string
+	for _, k := range ks {
+		fs = append(fs, t.pack(fplace{p.key + k.seg, k.ty}))
 	}
-	return v.term
+	if ls, ok := leanStruct[namedName(p.ty)]; ok {
+		return "(⟨" + strings.Join(fs, ", ") + "⟩ : " + ls + ")"
+	}
+	if _, ok := p.ty.Underlying().(*types.Array); ok {
+		return "#[" + strings.Join(fs, ", ") + "]"
+	}
+	return fs[0]
 }
 
-// write a Lean term of the place's type into the place (unpacking structures)
+// the leaf terms of the current value of a place, in order
+func (t *ftr) flat(p fplace) []string {
+	t.ensure(p.key)
+	if v, ok := t.store[p.key]; ok && v.kind == "term" {
+		var out []string
+		t.leafTerms(p, v.term, func(_ string, tm string, _ types.Type) { out = append(out, tm) })
+		return out
+	}
+	ks := t.kids(p.ty)
+	if ks == nil {
+		return []string{"?" + p.key}
+	}
+	var out []string
+	for _, k := range ks {
+		out = append(out, t.flat(fplace{p.key + k.seg, k.ty})...)
+	}
+	return out
+}
+
+// write a Lean term of the place's type into the place
 func (t *ftr) unpack(p fplace, term string) {
 	if strings.HasPrefix(p.key, "g:") {
 		t.fail("store to package-level variable %s", p.key)
 	}
-	t.leafTerms(p, term, func(key, tm string, ty types.Type) {
-		t.store[key] = fval{kind: "term", term: tm, ty: ty}
-	})
+	t.ensure(p.key)
+	for k := range t.store {
+		if strings.HasPrefix(k, p.key+".") || strings.HasPrefix(k, p.key+"[") {
+			delete(t.store, k)
+		}
+	}
+	t.store[p.key] = fval{kind: "term", term: term, ty: p.ty}
 }
 
 func (t *ftr) let(term string) string {
@@ -337,15 +407,15 @@ func (t *ftr) let(term string) string {
 }
 
 func (t *ftr) initPlace(p fplace, term string, zero bool) {
+	if !zero {
+		t.store[p.key] = fval{kind: "term", term: term, ty: p.ty}
+		return
+	}
 	t.leafTerms(p, term, func(key, tm string, ty types.Type) {
-		if zero {
-			if _, isPtr := ty.Underlying().(*types.Pointer); isPtr {
-				t.store[key] = fval{kind: "term", term: "nil", ty: ty}
-			} else {
-				t.store[key] = fval{kind: "term", term: t.zeroTerm(ty), ty: ty}
-			}
+		if _, isPtr := ty.Underlying().(*types.Pointer); isPtr {
+			t.store[key] = fval{kind: "term", term: "nil", ty: ty}
 		} else {
-			t.store[key] = fval{kind: "term", term: tm, ty: ty}
+			t.store[key] = fval{kind: "term", term: t.zeroTerm(ty), ty: ty}
 		}
 	})
 }
@@ -396,11 +466,16 @@ func (t *ftr) value(v ssa.Value) fval {
 }
 
 func (t *ftr) initPlaceConst(p fplace, term string) {
-	t.leafTerms(p, term, func(key, tm string, ty types.Type) {
-		if _, seen := t.store[key]; !seen {
-			t.store[key] = fval{kind: "term", term: tm, ty: ty}
+	t.ensure(p.key)
+	if _, seen := t.store[p.key]; seen {
+		return
+	}
+	for k := range t.store {
+		if strings.HasPrefix(k, p.key+".") || strings.HasPrefix(k, p.key+"[") {
+			return // already split into components
 		}
-	})
+	}
+	t.store[p.key] = fval{kind: "term", term: term, ty: p.ty}
 }
 
 // argument of a call as a Lean term: pointers are dereferenced
@@ -473,6 +548,13 @@ func (t *ftr) call(in *ssa.Call) fval {
 		}
 	}
 	switch name {
+	case "basepointTable":
+		// pointer to the lazily built package-level table; its value is the model's table
+		if pt, ok := in.Type().Underlying().(*types.Pointer); ok {
+			pl := fplace{"g:basepointTable", pt.Elem()}
+			t.initPlaceConst(pl, "Point.basepointTable")
+			return fval{kind: "ptr", place: pl, ty: in.Type()}
+		}
 	case "copyFieldElement":
 		// copy(buf[:], v.Bytes()); return buf[:]  -- the result is a slice over the caller's buffer
 		if len(args) == 2 && args[0].kind == "ptr" && args[1].kind == "ptr" {
@@ -545,6 +627,11 @@ func (t *ftr) call(in *ssa.Call) fval {
 			t.unpack(args[0].place, r)
 			return args[0]
 		}
+		if tup, isTup := in.Type().(*types.Tuple); isTup && tup.Len() == 0 && fn.Signature.Recv() != nil && len(args) > 0 && args[0].kind == "ptr" {
+			// procedure method: the generated definition returns the receiver's new value
+			t.unpack(args[0].place, r)
+			return fval{kind: "tuple"}
+		}
 		return fval{kind: "term", term: r, ty: in.Type()}
 	}
 	t.fail("call of %s (not a primitive of the table, not a translated function)", name)
@@ -609,6 +696,7 @@ func (t *ftr) instr(in ssa.Instruction) (ret *fval) {
 		}
 		v := fval{kind: "slice", place: b.place, ty: x.Type()}
 		for i := int64(0); i < arr.Len(); i++ {
+			t.ensure(fmt.Sprintf("%s[%d]", b.place.key, i))
 			e, ok := t.store[fmt.Sprintf("%s[%d]", b.place.key, i)]
 			if !ok {
 				t.fail("slice of an array with unknown elements")
@@ -643,6 +731,7 @@ func (t *ftr) instr(in ssa.Instruction) (ret *fval) {
 			t.vals[x] = fval{kind: "ptr", place: b.place, ty: x.Type()}
 		case "ptr":
 			if _, isPtr := b.place.ty.Underlying().(*types.Pointer); isPtr {
+				t.ensure(b.place.key)
 				t.vals[x] = t.store[b.place.key]
 			} else {
 				t.vals[x] = fval{kind: "term", term: t.pack(b.place), ty: x.Type()}
@@ -662,6 +751,7 @@ func (t *ftr) instr(in ssa.Instruction) (ret *fval) {
 			return
 		}
 		if v.kind == "ptr" {
+			t.ensure(a.place.key)
 			t.store[a.place.key] = v
 		} else {
 			t.unpack(a.place, t.argTerm(v))
@@ -702,6 +792,18 @@ func (t *ftr) instr(in ssa.Instruction) (ret *fval) {
 				r = a.n - b.n
 			case token.MUL:
 				r = a.n * b.n
+			case token.QUO:
+				if b.n == 0 {
+					t.fail("division by zero")
+					return
+				}
+				r = a.n / b.n
+			case token.REM:
+				if b.n == 0 {
+					t.fail("division by zero")
+					return
+				}
+				r = a.n % b.n
 			case token.LSS:
 				isBool = true
 				if a.n < b.n {
@@ -739,9 +841,6 @@ func (t *ftr) instr(in ssa.Instruction) (ret *fval) {
 			tm := fmt.Sprint(r)
 			if isBool {
 				tm = fmt.Sprint(r == 1)
-			}
-			if r < 0 {
-				t.fail("negative constant")
 			}
 			t.vals[x] = fval{kind: "term", term: tm, ty: x.Type(), conc: true, n: r}
 			return
@@ -827,12 +926,11 @@ func (t *ftr) retExpr(ret fval) (string, string) {
 		}
 		if pt, ok := p.Type().Underlying().(*types.Pointer); ok {
 			pl := fplace{fmt.Sprintf("p%d", t.alias[i]), pt.Elem()}
-			ii := i
-			t.leafTerms(pl, fmt.Sprintf("a%d", t.alias[i]), func(key, tm string, ty types.Type) {
-				if v := t.store[key]; v.kind != "term" || v.term != tm {
-					t.fail("argument %d is written", ii)
-				}
-			})
+			var want []string
+			t.leafTerms(pl, fmt.Sprintf("a%d", t.alias[i]), func(_ string, tm string, _ types.Type) { want = append(want, tm) })
+			if got := t.flat(pl); strings.Join(got, "|") != strings.Join(want, "|") {
+				t.fail("argument %d is written", i)
+			}
 		}
 	}
 	switch ret.kind {
@@ -1017,7 +1115,7 @@ func translateFormulas(repo string) (string, string, []string) {
 	}
 	var out, ties strings.Builder
 	out.WriteString("-- GENERATED by `go2lean formulas` from the working tree of /repo (symbolic execution of the go/ssa form). DO NOT EDIT.\n")
-	out.WriteString("import EdVerif.Impl.Point\nset_option linter.unusedVariables false\nnamespace EdVerif.Gen.Formulas\nopen EdVerif.Impl EdVerif.Prims\n\n")
+	out.WriteString("import EdVerif.Impl.FormulaPrims\nset_option linter.unusedVariables false\nnamespace EdVerif.Gen.Formulas\nopen EdVerif.Impl EdVerif.Prims\n\n")
 	ties.WriteString("-- GENERATED by `go2lean formulas`. DO NOT EDIT.\n-- One theorem per translated function and per aliasing pattern of its pointer parameters: the regenerated definition\n-- equals the hand-written specification `EdVerif.FormulaSpec.<name>` (EdVerif/Proofs/FormulaSpec.lean) applied to the\n-- argument VALUES, whichever parameters share storage.  Checked by `rfl` (definitional unfolding).\n")
 	ties.WriteString("import EdVerif.Gen.Formulas\nimport EdVerif.Proofs.FormulaSpec\nset_option maxRecDepth 100000\nnamespace EdVerif.Gen.FormulaTies\nopen EdVerif.Impl EdVerif.Prims EdVerif.Gen\n\n")
 	var problems []string
